@@ -1,9 +1,13 @@
-"""assemble /verif/seeded/<id>_<k>/ from the sub-agents' confirmed mutations and record which check catches each
+"""maintain /verif/seeded/<id>_<k>/ and record which check catches each change
 
-For every mutation whose independent confirmation (tools/confirm_seeded.sh, fresh scratch worktree) shows
-demo passes on the clean tree, fails with the change, and the whole suite passes with the change:
-  copy patch.diff / demo.py / notes.md, apply the patch to /repo, run the property's quick check (and every other
-  property's check, to see cross-detections), undo the patch, write meta.json.
+  gen_seeded.py intake   copy every newly confirmed change (tools/confirm_seeded.sh wrote /tmp/wt/confirm/<id>_<k>.json:
+                         demo passes on the clean tree, fails with the change, whole suite passes with the change) from
+                         /tmp/wt/out/<id>/ into seeded/<id>_<k>/ and write its meta.json (first-try verdict = the
+                         verdict of the checks as they are at intake time, before any strengthening)
+  gen_seeded.py eval     for every change kept under seeded/: apply patch.diff to /repo, run the property's quick check
+                         and every other property's check, undo the patch; refresh meta.json["detection"] and README.md
+
+Nothing here is part of a registered check; /repo is restored (git checkout -- .) after every patch.
 """
 import glob
 import json
@@ -11,56 +15,63 @@ import os
 import shutil
 import subprocess
 import sys
+from concurrent.futures import ThreadPoolExecutor
 
 ROOT = os.path.dirname(os.path.dirname(os.path.abspath(__file__)))
 OUT = "/tmp/wt/out"
 CONF = "/tmp/wt/confirm"
 PY = "/venv/bin/python"
 
-# how each mutation fared against the checks as they were when the mutation was first tried (recorded by hand at that time)
-FIRST_TRY = {
-    "C01_1": "missed (B3 did not judge the guard of the erase branch) -> added the `k is not None` guard clause",
-    "C01_2": "caught (C01.B7)", "C02_1": "caught (C02.S4)", "C02_2": "caught (C02.S2)",
-    "C03_1": "missed by C03 (no solver clause) and reported as ANALYSIS-ERROR by C02.S6 -> S6 locates every skip test; C03.P7 re-judges the solver slots",
-    "C03_2": "caught (C03.P3)",
-    "C04_1": "missed (seed replacement under truthiness) -> added the `self.seed is None` guard clause to C04.E2", "C04_2": "caught (C04.E1)",
-    "C05_1": "missed -> added C05.F9 (allocation sizes agree with the enumeration)", "C05_2": "missed -> C05.F2 now requires every constructor component to be read back",
-    "C06_1": "missed by C06 (caught by C13.V1) -> the is_connection slot is also judged under C06.T4", "C06_2": "caught (C06.T8)",
-    "C07_1": "caught (C07.L6)", "C07_2": "caught (C07.L4)",
-    "C08_1": "reported as ANALYSIS-ERROR (unfamiliar distance term) -> located-slot policy: an identified slot outside the accepted set is a VIOLATION",
-    "C08_2": "missed (tabulated in-place exception was too wide) -> the mutating loop must run over the result variable",
-    "C09_1": "caught (C09.R4)", "C09_2": "reported as ANALYSIS-ERROR (np.array_equiv) -> located-slot policy in C09.R1",
-    "C10_1": "caught (C10.X3; rule written after the agent's summary had been read)", "C10_2": "caught (C10.X5; rule written after the agent's summary had been read)",
-    "C11_1": "caught (C11.K2)", "C11_2": "caught (C11.K1)", "C12_1": "caught (C12.M1)", "C12_2": "caught (C12.M4)",
-    "C13_1": "caught (C13.V1)", "C13_2": "caught (C13.V2)", "C14_1": "caught (C14.W6)", "C14_2": "caught (C14.W5)",
-    "C17_1": "caught (C17.Z3)", "C17_2": "caught (C17.Z5)", "C18_1": "caught (C18.H1)",
-    "C15_1": "caught (C15.N4)", "C15_2": "caught (C15.N3)", "C20_2": "caught (C20.Y4)",
-    "C20_1": "missed -> added the 'only an empty path is skipped' clause to C20.Y3",
-    "C16_1": "missed (a cached index table; borderline: needs a member to change after first use) -> C16.Q2 requires the lengths tables to be plain properties",
-    "C16_2": "caught (C16.Q2)",
-    "C18_2": "missed -> added the identity-serialization clause for the option dictionaries to C18.H1",
-}
+
+def claimed_props() -> list[str]:
+    props = [json.loads(l)["id"] for l in open(os.path.join(ROOT, "properties.jsonl"))]
+    return [p for p in props if os.path.exists(os.path.join(ROOT, "sa", "rules", p.lower() + ".py"))]
 
 
 def run_check(prop: str) -> tuple[int, list[str]]:
-    r = subprocess.run([PY, "-m", "sa.check", "--property", prop, "--evidence-dir", "/tmp/.seeded_ev"], cwd=ROOT, capture_output=True, text=True)
+    ev = f"/tmp/.seeded_ev/{prop}"
+    r = subprocess.run([PY, "-m", "sa.check", "--property", prop, "--evidence-dir", ev], cwd=ROOT, capture_output=True, text=True)
     rules = sorted({ln.split("rule=")[1].split()[0] for ln in r.stdout.splitlines() if ln.strip().startswith("rule=")})
-    return r.returncode, rules
+    errs = sorted({ln.split("rule=")[1].split()[0] for ln in r.stdout.splitlines() if ln.startswith("ANALYSIS-ERROR") and "rule=" in ln})
+    return r.returncode, rules if r.returncode == 1 else errs
 
 
-def main() -> int:
-    props = [json.loads(l)["id"] for l in open(os.path.join(ROOT, "properties.jsonl"))]
-    claimed = [p for p in props if os.path.exists(os.path.join(ROOT, "sa", "rules", p.lower() + ".py"))]
-    rows = []
+def detect(patch: str, own: str) -> dict:
+    "apply, run all checks in parallel (they only read /repo), undo"
     assert subprocess.run(["git", "-C", "/repo", "status", "--porcelain"], capture_output=True, text=True).stdout.strip() == "", "/repo not clean"
+    subprocess.run(["git", "-C", "/repo", "apply", patch], check=True)
+    try:
+        cl = claimed_props()
+        with ThreadPoolExecutor(8) as ex:
+            res = dict(zip(cl, ex.map(run_check, cl)))
+    finally:
+        subprocess.run(["git", "-C", "/repo", "checkout", "--", "."], check=True)
+    others = {p: {"exit": c, "rules": r} for p, (c, r) in res.items() if p != own and c != 0}
+    return {"own_property_check_exit": res[own][0], "own_property_rules_reporting": res[own][1],
+            "other_property_checks_reporting": others}
+
+
+def first_try_text(det: dict) -> str:
+    code, rules = det["own_property_check_exit"], det["own_property_rules_reporting"]
+    if code == 1:
+        return f"caught ({', '.join(rules)})"
+    if code == 2:
+        return f"reported as ANALYSIS-ERROR ({', '.join(rules)})"
+    oth = [p for p, v in det["other_property_checks_reporting"].items() if v["exit"] == 1]
+    return "missed" + (f" by its own property's check (reported by {', '.join(oth)})" if oth else "")
+
+
+def intake() -> None:
     for cf in sorted(glob.glob(os.path.join(CONF, "C*_*.json"))):
         c = json.load(open(cf))
         key = f"{c['id']}_{c['k']}"
+        d = os.path.join(ROOT, "seeded", key)
+        if os.path.exists(os.path.join(d, "meta.json")):
+            continue
         ok = c["apply_exit"] == 0 and c["demo_clean_exit"] == 0 and c["demo_mutated_exit"] != 0 and c["suite_exit"] == 0 and "3199 passed" in c["suite_summary"]
         if not ok:
             print("NOT CONFIRMED", key, c)
             continue
-        d = os.path.join(ROOT, "seeded", key)
         os.makedirs(d, exist_ok=True)
         shutil.copy(os.path.join(OUT, c["id"], f"mutation_{c['k']}.diff"), os.path.join(d, "patch.diff"))
         shutil.copy(os.path.join(OUT, c["id"], f"demo_{c['k']}.py"), os.path.join(d, "demo.py"))
@@ -69,17 +80,9 @@ def main() -> int:
         if os.path.exists(np_):
             shutil.copy(np_, os.path.join(d, "notes.md"))
             notes = open(np_).read()
-        subprocess.run(["git", "-C", "/repo", "apply", os.path.join(d, "patch.diff")], check=True)
-        try:
-            own = run_check(c["id"])
-            others = {}
-            for p in claimed:
-                if p != c["id"]:
-                    code, rules = run_check(p)
-                    if code != 0:
-                        others[p] = {"exit": code, "rules": rules}
-        finally:
-            subprocess.run(["git", "-C", "/repo", "checkout", "--", "."], check=True)
+        det = detect(os.path.join(d, "patch.diff"), c["id"])
+        det["against_the_checks_as_first_tried"] = first_try_text(det)
+        det["how_run"] = "git -C /repo apply seeded/<id>/patch.diff; /venv/bin/python -m sa.check --property <P>; git -C /repo checkout -- ."
         meta = {
             "id": key, "breaks_property": c["id"],
             "needs_to_manifest": notes[:1500],
@@ -89,24 +92,44 @@ def main() -> int:
                 "demo_exit_on_clean_tree": c["demo_clean_exit"], "demo_exit_with_change": c["demo_mutated_exit"],
                 "suite_with_change": c["suite_summary"], "diffstat": c["diffstat"], "demo_failure_tail": c["demo_mutated_tail"],
             },
-            "detection": {
-                "own_property_check_exit": own[0], "own_property_rules_reporting": own[1],
-                "other_property_checks_reporting": others,
-                "against_the_checks_as_first_tried": FIRST_TRY.get(key, "not recorded"),
-                "how_run": "git -C /repo apply seeded/<id>/patch.diff; /venv/bin/python -m sa.check --property <P>; git -C /repo checkout -- .",
-            },
+            "detection": det,
         }
         json.dump(meta, open(os.path.join(d, "meta.json"), "w"), indent=1)
-        rows.append((key, own[0], own[1], sorted(others), FIRST_TRY.get(key, "")))
-        print(key, "exit", own[0], own[1], "others:", sorted(others))
+        print("INTAKE", key, det["against_the_checks_as_first_tried"])
+
+
+def evaluate(only: list[str]) -> int:
+    rows = []
+    for mf in sorted(glob.glob(os.path.join(ROOT, "seeded", "C*_*", "meta.json"))):
+        d = os.path.dirname(mf)
+        meta = json.load(open(mf))
+        key = meta["id"]
+        if not only or any(key.startswith(o) for o in only):
+            det = detect(os.path.join(d, "patch.diff"), meta["breaks_property"])
+            for k in ("against_the_checks_as_first_tried", "how_run"):
+                det[k] = meta["detection"].get(k, "not recorded")
+            meta["detection"] = det
+            json.dump(meta, open(mf, "w"), indent=1)
+            print(key, "exit", det["own_property_check_exit"], det["own_property_rules_reporting"], "others:", sorted(det["other_property_checks_reporting"]))
+        det = meta["detection"]
+        rows.append((key, det["own_property_check_exit"], det["own_property_rules_reporting"],
+                     sorted(det["other_property_checks_reporting"]), det["against_the_checks_as_first_tried"]))
     with open(os.path.join(ROOT, "seeded", "README.md"), "w") as f:
         f.write("# Seeded changes (written by independent sub-agents, confirmed by tools/confirm_seeded.sh)\n\n")
+        f.write("Changes `_1`, `_2` are the first round, `_3` ... the second round (written when the checks already existed; the\n"
+                "last column is the verdict of the checks as they were when the change was first tried).\n\n")
         f.write("| change | own check exit | rules reporting | also reported by | against the checks as first tried |\n|---|---|---|---|---|\n")
         for key, code, rules, oth, first in rows:
             f.write(f"| {key} | {code} | {', '.join(rules)} | {', '.join(oth)} | {first} |\n")
+        n1 = sum(1 for r in rows if r[1] == 1)
+        f.write(f"\n{len(rows)} changes; {n1} reported as VIOLATION by their own property's check today.\n")
     shutil.rmtree("/tmp/.seeded_ev", ignore_errors=True)
     return 0
 
 
 if __name__ == "__main__":
-    sys.exit(main())
+    cmd = sys.argv[1] if len(sys.argv) > 1 else "eval"
+    if cmd == "intake":
+        intake()
+        sys.exit(evaluate(["-"]))  # README only
+    sys.exit(evaluate(sys.argv[2:]))
